@@ -17,6 +17,11 @@ CHECKS = {
         text="TLA+ model of drip.Writer + the validating pool's validate closure (error and wound mode) model-checked exhaustively at unit scale against the abstract caller-observable layer (DripProp); one witness walk per transition of the model's state graph is replayed on the real ValidatingPool and TLC evaluates DripProp after every recorded step of the real pool, plus byte-precise random slicings validated through digest facts.",
         note="1 unit = 64KiB/BS bytes of seeded random data per symbol; SHA-256 digests stand for byte equality; hash collisions not modelled except crafted weak-hash twins.",
         technique="TLA+ model checking (TLC) + model-generated walks replayed on the real pool + trace validation against the TLA+ property layer"),
+    "C14": dict(
+        level="model_checking", ref="DESIGN.md §4 C14",
+        text="Scale-free TLA+ model of the overlay writer (bufio + per-window fresh/skip scan, flush, crash/resume sessions) model-checked exhaustively at W=4,T=1 over every content relation, write partition and flush/resume point; real writer sessions at the real constants (boundary run lengths, write sizes 1..>window, flushes, crashes with stale bytes) are decoded by an independent framing parser and TLC evaluates the abstract overlay-stream property (tiling, skips only over equal bytes, fresh payload = new bytes, exact checkpoints, patched+truncated result = new) on them and steps the model along the recorded acts (drift).",
+        note="old-file reader returns full reads except at EOF; SHA-256 digests stand for byte equality; D runs differ in every byte.",
+        technique="TLA+ model checking (TLC) + trace validation of real overlay sessions against the TLA+ overlay-stream property and model"),
 }
 
 NOT_YET = "check not built yet in this round (planned: DESIGN.md §4); not a claim that the technique cannot apply"
